@@ -184,7 +184,12 @@ pub fn alt_iter<I: Iterator>(mk: impl Fn() -> I, cap: usize, f: impl Fn(I::Item)
         Some(x) => json!([i, [f(x)]]),
         None => json!([i, []]),
     }).collect();
-    let nth_end = mk().nth(n).is_none();
+    let nth_end = mk().nth(n).is_none() && mk().nth(usize::MAX).is_none() && mk().skip(usize::MAX).next().is_none()
+        && mk().nth(usize::MAX / 4 + 1).is_none()
+        // everything consumed without polling the final None, then asked for the last / the rest
+        && mk().skip(n).last().is_none()
+        && { let mut it = mk(); for _ in 0..n { let _ = it.next(); } it.last().is_none() }
+        && { let mut it = mk(); for _ in 0..n { let _ = it.next(); } it.count() == 0 };
     let mut nth_seq = vec![];
     {
         let mut it = mk();
